@@ -501,7 +501,6 @@ func (h *H) stepReopen(m *Mon) {
 		// try to continue with a fresh handle is impossible; abort history
 		panic("reopen failed: " + err.Error())
 	}
-	m.N = n
 	h.R.Count("reopen", 1)
 	// visor.Init removes hard-invalid pooled transactions on start
 	for hsh, e := range m.M.Pool {
@@ -561,6 +560,7 @@ func (h *H) finalRealPublish() {
 	}
 	h.stepInject(h.Pub, false)
 	h.catchUp()
+	h.stepWrongKeyPublish()
 	h.realClock = true
 	h.stepPublish()
 	h.realClock = false
